@@ -441,7 +441,13 @@ def explore_doc(name, xml, acc, tier, wrap=None):
                               tags={"kind": "positive", "edit": op[0], "site_tag": e.tag})
     if tier != "quick":
         # pairs of violating edits at distinct elements
-        for (op1, i), (op2, j) in itertools.combinations(sites, 2):
+        npairs = len(sites) * (len(sites) - 1) // 2
+        stride = max(1, npairs // PAIR_CAP)      # documents with many sites: every stride-th pair (stated in bounds)
+        if stride > 1:
+            acc.extra["documents_with_strided_pairs"] += 1
+        for pi, ((op1, i), (op2, j)) in enumerate(itertools.combinations(sites, 2)):
+            if pi % stride:
+                continue
             if i == j or (op1[0], op2[0]) in PAIR_SKIP or _related(es, pm, i, j):
                 continue
             try:
@@ -462,6 +468,7 @@ def explore_doc(name, xml, acc, tier, wrap=None):
 
 
 PAIR_SKIP = set()
+PAIR_CAP = 12000         # thorough tier: at most this many violating-edit pairs per base document
 
 
 def _related(es, pm, i, j):
@@ -1394,7 +1401,7 @@ def run(tier):
                 sorted(set(l for l, _ in x_layouts(tier))),
                 "{absent, basic-key, identifier}" if quick else "{absent, basic-key, identifier, a case-folding dotted-name key type}",
                 ", none or one key with two bases / a chain of bases" if quick else "", "unordered" if quick else "ordered"),
-        bounds={"documents": len(docs) + 1, "violating_operators": [o[0] for o in VIOLATING],
+        bounds={"documents": len(docs) + 1, "violating_pairs_per_document_cap": PAIR_CAP if tier != "quick" else 0, "violating_operators": [o[0] for o in VIOLATING],
                 "preserving_operators": [o[0] for o in PRESERVING], "pairs": tier != "quick",
                 "nesting_documents": [n for n, _ in ndocs] + ["component"] if quick else len(ndocs) + 1,
                 "text_position_documents": len(tdocs) + 1, "nesting_child_tags": list(R.CHILD_TAGS), "nesting_depth": 2,
